@@ -18,11 +18,6 @@ def sSArg : Spec.SArg → String
 
 def sSInstr (i : Spec.SInstr) : String := s!"{i.op},{sSArg i.arg},{sOpt toString i.line}"
 
-def viewOf : CodeData → List Spec.SInstr
-  | .mk blocks _ _ _ _ _ _ _ _ _ _ =>
-    let starts := blockStarts blocks 0
-    blocks.flatten.map fun i => ⟨i.op, viewArg starts (fun _ => some 0) i.arg, i.line⟩
-
 structure Env where
   tables : List (String × OpTable) := []
   flags : List (String × FlagTable) := []
@@ -44,18 +39,9 @@ def lookup {β} (k : String) : List (String × β) → Option β
   | [] => none
   | (k', v) :: r => if k == k' then some v else lookup k r
 
-def sKind : Spec.Kind → String
+def sKind : Kind → String
   | .posOnly => "POSITIONAL_ONLY" | .posOrKw => "POSITIONAL_OR_KEYWORD" | .varPos => "VAR_POSITIONAL"
   | .kwOnly => "KEYWORD_ONLY" | .varKw => "VAR_KEYWORD"
-
-/-- `Args.parameters` (names with kinds, signature order, OrderedDict semantics) -/
-def paramKinds (a : Args) : List (PStr × Spec.Kind) :=
-  let all := a.posOnly.map (·, Spec.Kind.posOnly) ++ a.posOrKw.map (·, Spec.Kind.posOrKw)
-    ++ (optName a.varPos).map (·, Spec.Kind.varPos) ++ a.kwOnly.map (·, Spec.Kind.kwOnly)
-    ++ (optName a.varKw).map (·, Spec.Kind.varKw)
-  -- later duplicates overwrite the kind but keep the first position
-  let names := a.paramNames
-  names.map fun n => (n, ((all.reverse.find? (fun (m, _) => m == n)).map (·.2)).getD Spec.Kind.posOrKw)
 
 def sLMap (m : LT.LMap) : String :=
   sList (fun (o, l) => s!"{o}:{sOpt toString l}") m.lines ++ " " ++
@@ -123,7 +109,7 @@ def step (env : Env) (line : String) : Env × Option String :=
     match verOf vs, lookup vs env.tables, lookup vs env.flags with
     | some v, some T, some F => (env, some (withCode toks fun c =>
         showR (fun d => match d.type with
-          | some f => " ".intercalate ((paramKinds f.args).map fun (n, k) => sStr n ++ ":" ++ sKind k)
+          | some f => " ".intercalate (f.args.parameters.map fun (n, k) => sStr n ++ ":" ++ sKind k)
           | none => "NOTFUNCTION") (toCodeData v T F c)))
     | _, _, _ => (env, some "NOENV")
   | some "specsig" =>
